@@ -128,6 +128,8 @@ class C18(PropBase):
                 exp = base + '/' + ver(max(vs)) if vs else ''
                 if got[0] != exp:
                     return 'get_last(%r) with existing versions %r = %r, expected %r' % (s, vs, got[0], exp)
+        if case.stream == 'chain2' and impl[0] != 'ok':
+            return 'publishing a lagging state repeatedly (create(get_new), %d times, from %r) failed with %r: get_new returned a version that exists' % (m.get('k', 0), case.args[1], impl)
         if case.stream == 'chain2' and impl[0] == 'ok':
             nums = [int(s.split('/')[-3][1:]) for s in impl[1] if s]
             if len(set(nums)) != len(nums) or nums != sorted(nums) or (nums and nums[0] <= m['start']) or (m.get('k') == 4 and m['vs'] == [1, 2, 3] and nums != [2, 3, 4, 5]):
